@@ -25,7 +25,7 @@ import (
 const c26SrvRule = "the C25 live two-session server workload (remote scripts + API readers/writers in 3-8 goroutines) under the race detector; non-trivial = round in which an API operation overlapped a session event"
 
 func c26SrvRounds() int {
-	n := kit.Scale(400, 2000)
+	n := kit.Scale(1200, 2500)
 	if v := os.Getenv("C26_SRV_ROUNDS"); v != "" {
 		fmt.Sscanf(v, "%d", &n)
 	}
